@@ -37,6 +37,10 @@ RULE = ('one case = per-slot (prior file, listed, manifest, placement) x '
         'injected failure or kill at one FS step + recovery sync')
 
 ASSUMPTIONS = [
+    'interpretation: "mirrors" together with the quantifier\'s "outdated '
+    'files" is read as: a check_existing synchronisation refreshes a cache '
+    'file that is older than the placement node it belongs to (clause '
+    'outdated-file-not-refreshed); the statement does not say so literally',
     'fake ZooKeeper mc/fakezk.py (kazoo get/NoNodeError/ctime semantics '
     'pinned by selftest/fakezk_test.py); the expected list is passed to '
     '_synchronize as the ChildrenWatch callback would (it may name an '
